@@ -77,6 +77,19 @@ async fn run_async(ctx: &mut Ctx, which: Which) {
         sw.establish(p, 1, dir).await;
     }
     sw.settle().await;
+    // some peers are on the application's permit lists (by node id or by IP): the packet filter lets their packets
+    // through whatever happens, but a responder that sends unrequested records is put on the ban list all the same
+    if which.c11 && ctx.tape.choose(4) == 0 {
+        for &u in &universe {
+            match ctx.tape.choose(6) {
+                0 => sw.d.permit_node(&peer_id(u)),
+                1 => sw.d.permit_ip(peer_addr(u).ip()),
+                _ => continue,
+            }
+            ctx.count("responders_on_a_permit_list");
+        }
+        ctx.fault("permit_list_entries");
+    }
     // ---- the lookup target
     let tk = ctx.tape.choose(6);
     let target: NodeId = match tk {
@@ -214,6 +227,23 @@ async fn run_async(ctx: &mut Ctx, which: Which) {
             }
             continue;
         }
+        // the routing table changes while the lookup runs: a node of the universe connects (and enters the table) or a
+        // table entry is removed by the application; what the lookup has learnt from answers stays its own
+        if which.c09_10 && ctx.tape.choose(6) == 0 {
+            // (half of the time the change is aimed at a node the lookup has learnt of but not asked yet)
+            let waiting: Vec<usize> = learnt.iter().copied().filter(|c| !asked.contains_key(c)).collect();
+            let u = if !waiting.is_empty() && ctx.tape.choose(2) == 0 { *ctx.tape.pick(&waiting) } else { *ctx.tape.pick(&universe) };
+            let in_table = sw.d.table_entries().iter().any(|(i, _, _)| *i == peer_id(u));
+            if in_table {
+                let r = sw.d.remove_node(&peer_id(u));
+                ctx.fault("table_entry_removed_during_lookup");
+                ctx.ev(format!("t={} remove_node(n#{u}) -> {r}", now_ms()));
+            } else {
+                ctx.fault("node_connects_during_lookup");
+                ctx.ev(format!("t={} n#{u} connects (session reported)", now_ms()));
+                sw.establish(u, 1, ConnectionDirection::Incoming).await;
+            }
+        }
         // ---- answer one pending request completely (so that events are attributable)
         let k = ctx.tape.choose(pending.len() as u32) as usize;
         if which.c09_10 && !second_lookup_started && pending.len() >= 2 && !stale.contains(&pending[k].id.0) && ctx.tape.choose(6) == 0 {
@@ -277,7 +307,33 @@ async fn run_async(ctx: &mut Ctx, which: Which) {
         } else {
             ctx.fault("malicious_responder");
             let kind = ctx.tape.choose(8);
-            let foreign: Vec<Enr> = universe.iter().copied().filter(|u| *u != p.peer && !p.distances.contains(&dist(&rid, &peer_id(*u)))).map(|u| peer_enr(u, 1)).collect();
+            // the unrequested records a malicious responder slips in come in every shape: dialable, with an
+            // endpoint of the other address family only, with an address but no port, without any endpoint
+            let junk_shape = ctx.tape.choose(6);
+            if junk_shape >= 3 {
+                ctx.fault("unrequested_record_not_dialable");
+            }
+            let foreign: Vec<Enr> = universe
+                .iter()
+                .copied()
+                .filter(|u| *u != p.peer && !p.distances.contains(&dist(&rid, &peer_id(*u))))
+                .map(|u| {
+                    let mut spec = peer_spec(u, 1);
+                    match junk_shape {
+                        3 => {
+                            let mut a = [0u8; 16];
+                            a[0] = 0xfd;
+                            a[15] = u as u8;
+                            spec.ip4 = None;
+                            spec.ip6 = Some((a, 9000));
+                        }
+                        4 => spec.ip4 = spec.ip4.map(|(ip, _)| (ip, 0)),
+                        5 => spec.ip4 = None,
+                        _ => {}
+                    }
+                    crate::ident::try_record(spec).unwrap_or_else(|| peer_enr(u, 1))
+                })
+                .collect();
             match kind {
                 0 => {
                     // off-distance records in the first packet
